@@ -66,6 +66,22 @@ def _check_stats(model, st, queries, tag, tol, nv, E):
         return tag + ": negative Mahalanobis distance"
     if abs(float(model.mahalanobis_distance(mean))) > tol * mscale * 10:
         return tag + ": Mahalanobis distance of the mean is not zero"
+    # the two options of the query, single and batched: (x - mean)' Q (x - mean) or x' Q x, squared or not
+    for sm in (True, False):
+        for sr in (False, True):
+            dq = qs - mean if sm else qs
+            w = np.einsum("ij,jk,ik->i", dq, Qx, dq)
+            w = np.sqrt(np.maximum(w, 0)) if sr else w
+            gb = np.asarray(model.mahalanobis_distance(qs, subtract_mean=sm, square_root=sr), dtype=float).ravel()
+            gs = np.array([float(np.asarray(model.mahalanobis_distance(q, subtract_mean=sm, square_root=sr)).ravel()[0]) for q in qs])
+            sc = max(1.0, np.abs(w).max())
+            if sr:
+                # (the root of a form that is zero up to rounding is decided by the sign of the rounding error: not judged)
+                keep = w > 1e-3 * sc
+                gb, gs, w = gb[keep] if gb.shape == keep.shape else gb, gs[keep], w[keep]
+            if gb.shape != w.shape or not np.allclose(gb, w, atol=tol * sc * 100) or not np.allclose(gs, w, atol=tol * sc * 100):
+                return tag + ": Mahalanobis distances with subtract_mean=%r, square_root=%r differ (single %s, batched %s, expected %s)" % (
+                    sm, sr, gs.tolist(), gb.tolist(), w.tolist())
     return None
 
 
@@ -115,9 +131,9 @@ class _ShapeModel:
     def mean(self):
         return self.m.mean().as_vector()
 
-    def mahalanobis_distance(self, q):
+    def mahalanobis_distance(self, q, **kw):
         q = np.asarray(q, dtype=float)
-        return self.m.mahalanobis_distance(self.shapes(q) if q.ndim == 2 else self.shapes([q])[0])
+        return self.m.mahalanobis_distance(self.shapes(q) if q.ndim == 2 else self.shapes([q])[0], **kw)
 
     def increment(self, rows):
         self.m.increment(self.shapes(rows))
